@@ -8,6 +8,10 @@ use std::collections::BTreeSet;
 
 pub struct C10;
 
+fn enc_decode_ok(b: &[u8], enc: &str) -> Option<String> {
+    encoding::label::encoding_from_whatwg_label(enc).and_then(|c| c.decode(b, encoding::DecoderTrap::Strict).ok())
+}
+
 fn tied_language(enc: &str) -> Option<&'static str> {
     match enc {
         "euc-kr" => Some("Korean"),
@@ -54,6 +58,37 @@ impl DetectProp for C10 {
             c = multi_candidate_case(rng);
         }
         c
+    }
+    fn directed(&self, thorough: bool) -> Vec<Case> {
+        // inputs close below the 1,000,000-byte limit whose *decoded* form is much larger than the input
+        // (legacy single-byte Greek / Cyrillic, two-byte CJK): still "at most 1,000,000 bytes", so code pages
+        // that read them identically must share a match
+        let mut rng = Rng::new(1010);
+        let mut v = vec![];
+        let picks: &[(&str, &str, usize)] = &[("greek", "iso-8859-7", 640_000), ("russian", "windows-1251", 990_000), ("chinese", "gbk", 700_000), ("french", "iso-8859-1", 999_999)];
+        for (k, (name, enc, size)) in picks.iter().enumerate() {
+            if !thorough && k > 0 {
+                break;
+            }
+            let base = TEXTS.iter().find(|(n, _)| n == name).map(|x| x.1).unwrap_or(TEXTS[0].1);
+            let unit = enc_bytes_lossy(&stretch(&mut rng, base, 3000), enc);
+            if unit.is_empty() {
+                continue;
+            }
+            let mut b = Vec::with_capacity(*size + unit.len());
+            while b.len() < *size {
+                b.extend_from_slice(&unit);
+            }
+            b.truncate(*size);
+            if *enc == "gbk" {
+                // do not cut a two-byte character
+                while enc_decode_ok(&b, enc).is_none() && !b.is_empty() {
+                    b.pop();
+                }
+            }
+            v.push(Case { bytes: b, sett: Sett::default(), tag: format!("nomodel:large-legacy-below-limit:{}", enc) });
+        }
+        v
     }
     fn oracle(&self, cx: &mut Ctx, case: &Case, raw: &RealRaw) {
         let s = &case.sett;
